@@ -141,12 +141,14 @@ Fixpoint completions (tr : list ev) : list bool :=
 
 (* the completions a request handler of behaviour b owes its caller: exactly one, unless the
    handler's own code returns normally without completing *)
-Definition owed (b : beh) : list bool :=
+Definition owed_g (rp : bool) (b : beh) : list bool :=
   match b with
   | BOk | BOkPanic | BTwice => [false]
   | BErr | BPanic => [true]
   | BNever => []
+  | BOkBad => [rp]   (* a result the completion function cannot deliver (it panics): an error instead *)
   end.
+Definition owed : beh -> list bool := owed_g false.
 
 Definition oz_eqb : option Z -> option Z -> bool := option_eqb Z.eqb.
 Definition ev_eqb (a b : ev) : bool :=
@@ -194,26 +196,82 @@ Definition f4_ser (es : list eopt) (s : ser) (route : str) (dec : list (Z * dres
       end
   end.
 
-(* ---- histories: the spec's own state is (registered entries, entries at the last Build) ---- *)
-Record sst := SS { ss_reg : list eopt; ss_built : list eopt }.
-Definition sinit : sst := SS [] [].
+(* ---- the Dispatch layer: a ServiceRequest arriving at a Service whose dispatcher was made over
+   the collections built from [ess] (in that order) ----
+   The first collection that resolves the route answers (api.go tryCall); none = "no method".
+   Property: a request (rid <> 0) gets EXACTLY ONE response - RspNoMethod when no collection
+   resolves the route, an error in every other failure case, what the handler owes otherwise;
+   a notification (rid = 0) gets none; the targeted method runs exactly once in the good case and
+   nothing runs otherwise; nothing escapes the service as a panic. *)
+Definition first_resolving (ess : list (list eopt)) (route : str) : option (list eopt) :=
+  find (fun es => match resolve es route with Some _ => true | None => false end) ess.
+
+Definition rsp_eqb (a b : rsp) : bool :=
+  match a, b with
+  | RspNoMethod, RspNoMethod => true
+  | RspDone x, RspDone y => Bool.eqb x y
+  | _, _ => false
+  end.
+Definition rsps_eqb : list rsp -> list rsp -> bool := list_eqb rsp_eqb.
+
+Definition demand_routed (ess : list (list eopt)) (isreq : bool) (route : str)
+  (dec : list (Z * dres)) (cx : ctxv) (b : beh) (inv : list ev) (rsps : list rsp) : bool :=
+  match first_resolving ess route with
+  | None => trace_eqb inv [] && rsps_eqb rsps (if isreq then [RspNoMethod] else [])
+  | Some es =>
+      match expect_ser es SProto route dec cx with
+      | VFail => trace_eqb inv [] && rsps_eqb rsps (if isreq then [RspDone true] else [])
+      | VGood mt seen =>
+          let i := EvInvoke (m_uid mt) seen in
+          if isreq then
+            if is_request mt then trace_eqb inv [i] && rsps_eqb rsps (map RspDone (owed_g true b))
+            else (trace_eqb inv [] && rsps_eqb rsps [RspDone true])
+                 || (trace_eqb inv [i] && (rsps_eqb rsps [RspDone true] || rsps_eqb rsps [RspDone false]))
+          else trace_eqb inv [i] && rsps_eqb rsps []
+      end
+  end.
+
+Definition demand_disp (ess : list (list eopt)) (rid : Z) (route : str) (dec : list (Z * dres))
+  (cx : ctxv) (b : beh) (inv : list ev) (rsps : list rsp) (esc : bool) : bool :=
+  negb esc &&
+  (if is_empty route then trace_eqb inv []   (* no route: not an API call; only "nothing runs, no panic" *)
+   else demand_routed ess (negb (rid =? 0)) route dec cx b inv rsps).
+
+Definition f4_disp (ess : list (list eopt)) (rid : Z) (route : str) (dec : list (Z * dres)) : bool :=
+  negb (is_empty route) &&
+  match first_resolving ess route with
+  | None => false
+  | Some es => f4_ser es SProto route dec (negb (rid =? 0))
+  end.
+
+(* ---- histories: the spec's own state is, per collection, (registered entries, entries at the
+   last Build) ---- *)
+Record scol := SS { ss_reg : list eopt; ss_built : list eopt }.
+Definition sst := Z -> scol.
+Definition sinit : sst := fun _ => SS [] [].
+Definition supd (s : sst) (k : Z) (v : scol) : sst := fun j => if j =? k then v else s j.
 
 Definition sstep (s : sst) (o : op) : sst :=
   match o with
-  | OReg e op_ => SS (ss_reg s ++ [(e, op_)]) (ss_built s)
-  | OBuild => SS (ss_reg s) (ss_reg s)
+  | OReg k e op_ => supd s k (SS (ss_reg (s k) ++ [(e, op_)]) (ss_built (s k)))
+  | OBuild k => supd s k (SS (ss_reg (s k)) (ss_reg (s k)))
   | _ => s
   end.
 
+Definition builts (s : sst) (ks : list Z) : list (list eopt) := map (fun k => ss_built (s k)) ks.
+
 Definition op_ok (s : sst) (o : op) (b : obs) : bool :=
   match o, b with
-  | OReg _ _, BUnit => true
-  | OBuild, BUnit => true
-  | OHas r, BBool x => Bool.eqb x (match resolve (ss_built s) r with Some _ => true | None => false end)
-  | OArgT r, BArg t =>
-      oz_eqb t (match resolve (ss_built s) r with Some mt => Some (p_tid (msg_type mt)) | None => None end)
-  | OCallSer sr r _ dec c cb bh, BCall tr esc => demand (expect_ser (ss_built s) sr r dec c) cb bh tr esc
-  | OCall r a c cb bh, BCall tr esc => demand (expect_call (ss_built s) r c a) cb bh tr esc
+  | OReg _ _ _, BUnit => true
+  | OBuild _, BUnit => true
+  | OHas k r, BBool x =>
+      Bool.eqb x (match resolve (ss_built (s k)) r with Some _ => true | None => false end)
+  | OArgT k r, BArg t =>
+      oz_eqb t (match resolve (ss_built (s k)) r with Some mt => Some (p_tid (msg_type mt)) | None => None end)
+  | OCallSer k sr r _ dec c cb bh, BCall tr esc => demand (expect_ser (ss_built (s k)) sr r dec c) cb bh tr esc
+  | OCall k r a c cb bh, BCall tr esc => demand (expect_call (ss_built (s k)) r c a) cb bh tr esc
+  | ODispatch ks rid r _ dec _ cx bh, BDisp inv rsps _ esc =>
+      demand_disp (builts s ks) rid r dec cx bh inv rsps esc
   | _, _ => false
   end.
 
@@ -226,8 +284,9 @@ Fixpoint monitor_from (s : sst) (ops : list op) (bs : list obs) : bool :=
 
 Definition op_f4 (s : sst) (o : op) : bool :=
   match o with
-  | OCallSer sr r _ dec _ cb _ => f4_ser (ss_built s) sr r dec cb
-  | OCall r _ _ cb _ => f4_direct (ss_built s) r cb
+  | OCallSer k sr r _ dec _ cb _ => f4_ser (ss_built (s k)) sr r dec cb
+  | OCall k r _ _ cb _ => f4_direct (ss_built (s k)) r cb
+  | ODispatch ks rid r _ dec _ _ _ => f4_disp (builts s ks) rid r dec
   | _ => false
   end.
 
